@@ -80,6 +80,7 @@ type Contract struct {
 	Line     int
 	CF       *ContractFile
 	SameAs   string
+	Lemmas   []string // lemmas made available to the obligations of this function
 	Inline   bool
 }
 
@@ -137,7 +138,7 @@ var clauseKeywords = map[string]bool{
 	"ghost": true, "dropped": true, "func": true, "extern": true, "interface": true, "params": true,
 	"results": true, "requires": true, "profile": true, "ensures": true, "modifies": true,
 	"trusted": true, "loop": true, "invariant": true, "at": true, "pure": true, "noalloc": true,
-	"profiles": true, "free": true, "sameas": true, "sortspec": true, "inline": true,
+	"profiles": true, "free": true, "sameas": true, "sortspec": true, "inline": true, "lemmas": true,
 }
 
 var labelRe = regexp.MustCompile(`^([A-Za-z_][A-Za-z0-9_\-]*):\s+`)
@@ -442,6 +443,8 @@ func readContractFile(path string, pkgPath string) (*ContractFile, error) {
 				cur.NoAlloc = true
 			case "sameas":
 				cur.SameAs = strings.TrimSpace(rc.text)
+			case "lemmas":
+				cur.Lemmas = append(cur.Lemmas, splitNames(rc.text)...)
 			case "trusted":
 				cur.Trusted = strings.Trim(strings.TrimSpace(rc.text), "\"")
 				if cur.Trusted == "" {
